@@ -429,7 +429,7 @@ impl RuneUpdater<'_, '_, '_> {
           .get_raw_transaction_info(&input.previous_output.txid, None)
           .into_option()?
         else {
-          panic!(
+          bail!(
             "can't get input transaction: {}",
             input.previous_output.txid
           );
@@ -444,18 +444,28 @@ impl RuneUpdater<'_, '_, '_> {
           continue;
         }
 
-        let commit_tx_height = self
-          .client
-          .get_block_header_info(&tx_info.blockhash.unwrap())
-          .into_option()?
-          .unwrap()
-          .height;
+        let Some(blockhash) = tx_info.blockhash else {
+          bail!(
+            "input transaction is not confirmed: {}",
+            input.previous_output.txid
+          );
+        };
 
-        let confirmations = self
+        let Some(header_info) = self.client.get_block_header_info(&blockhash).into_option()? else {
+          bail!("can't get header of block {blockhash}");
+        };
+
+        let Some(confirmations) = self
           .height
-          .checked_sub(commit_tx_height.try_into().unwrap())
-          .unwrap()
-          + 1;
+          .checked_sub(header_info.height.try_into().unwrap())
+          .map(|confirmations| confirmations + 1)
+        else {
+          bail!(
+            "input transaction {} confirmed after block {}",
+            input.previous_output.txid,
+            self.height
+          );
+        };
 
         if confirmations >= u32::from(Runestone::COMMIT_CONFIRMATIONS) {
           return Ok(true);
